@@ -198,10 +198,13 @@ def clean_replays(prop):
     """Witnesses of earlier runs are removed at the start of a run (known-finding witnesses
     live under /verif/findings, not here)."""
     d = os.path.join(OUT, "replays", prop)
-    if os.path.isdir(d):
+    if os.path.isdir(d) and os.listdir(d):
+        # keep the previous run's witnesses (schedule-dependent ones may not come back): move them aside
+        old = os.path.join(VERIF, "work", "old-replays", prop, time.strftime("%m%d-%H%M%S"))
+        os.makedirs(old, exist_ok=True)
         for f in os.listdir(d):
             try:
-                os.remove(os.path.join(d, f))
+                os.replace(os.path.join(d, f), os.path.join(old, f))
             except OSError:
                 pass
 
